@@ -271,6 +271,23 @@ func (s *ASpec) build() (*core.Spec, error) {
 	return spec, nil
 }
 
+// noLoops replaces every endless script by a throwing one.  A deadline set for a
+// whole Walk also cuts the actions that run after an endless one, by an amount
+// that depends on timing; only single steps (whose deadline concerns exactly the
+// one looping action) keep endless scripts.  C11 has its own timing-tolerant runs.
+func (s *ASpec) noLoops() {
+	for _, nd := range s.Nodes {
+		if nd.Action != nil && nd.Action.P.Term == "loop" {
+			nd.Action.P.Term = "throw"
+		}
+		for _, b := range nd.Branches {
+			if b.Guard != nil && b.Guard.P.Term == "loop" {
+				b.Guard.P.Term = "throw"
+			}
+		}
+	}
+}
+
 func (s *ASpec) hasLoop() bool {
 	for _, nd := range s.Nodes {
 		if nd.Action.hasLoop() {
